@@ -4,6 +4,7 @@
 package acclib
 
 import (
+	"bytes"
 	"fmt"
 	"math/big"
 	"reflect"
@@ -272,6 +273,12 @@ func Run(c string) string {
 		return deepParse(lib.Atoi(f[1]))
 	case f[0] == "expr" && len(f) == 2:
 		b, err := printer.Bytes(DecExpr(f[1]))
+		if err != nil {
+			return "err other"
+		}
+		return "ok " + lib.Bytes(b)
+	case f[0] == "stmt" && len(f) == 2:
+		b, err := printer.Bytes(DecScript(f[1]).Statements[0])
 		if err != nil {
 			return "err other"
 		}
@@ -654,6 +661,8 @@ func OracleC07(c, res string) string {
 		return "panic: " + res
 	}
 	switch f[0] {
+	case "expr", "stmt":
+		return oracleNode(f[0], f[1])
 	case "printhist":
 		return oraclePrintHist(c, res)
 	case "parsehist":
@@ -724,4 +733,88 @@ func CountOps(c *ast.Chain) int {
 		n += rec(s.Expr)
 	}
 	return n
+}
+
+// oracleNode: a bare expression or statement node printed through every entry point (Bytes, String,
+// Fprint into a caller-owned buffer) gives the same, non-empty text, and that text means the node:
+// "return <text>" parses to the chain returning the expression; a named statement's text followed by
+// "return 1" parses to that statement and the return.
+func oracleNode(kind, enc string) string {
+	var node interface{}
+	var e ast.Expr
+	var st ast.Statement
+	if kind == "expr" {
+		e = DecExpr(enc)
+		node = e
+	} else {
+		st = DecScript(enc).Statements[0]
+		node = st
+	}
+	b, err1 := printer.Bytes(node)
+	s, err2 := printer.String(node)
+	var buf bytes.Buffer
+	err3 := printer.Fprint(&buf, node)
+	if err1 != nil || err2 != nil || err3 != nil {
+		return "printing a bare " + kind + " node failed"
+	}
+	if string(b) != s || buf.String() != s {
+		return fmt.Sprintf("printer entry points disagree on a bare %s node: Bytes %q, String %q, Fprint %q", kind, b, s, buf.String())
+	}
+	if s == "" {
+		return "printing a bare " + kind + " node returned empty text and no error"
+	}
+	if kind == "expr" {
+		if !exprInScope(e) {
+			return ""
+		}
+		want := &ast.Chain{Statements: []ast.Statement{{Expr: e}}}
+		if !InScope(want) {
+			return ""
+		}
+		got, err := parse.String("return " + s)
+		if err != nil {
+			return fmt.Sprintf("text %q printed for a bare expression is rejected by the parser (as 'return %s')", s, s)
+		}
+		if !reflect.DeepEqual(got, want) && !k1Shape(e) {
+			return fmt.Sprintf("text %q printed for a bare expression parses to a different tree %s", s, EncScript(got))
+		}
+		return ""
+	}
+	if !exprInScope(st.Expr) || k1Shape(st.Expr) {
+		return ""
+	}
+	var want *ast.Chain
+	text := s
+	if st.Name == "" {
+		want = &ast.Chain{Statements: []ast.Statement{st}}
+	} else if isIdent(string(st.Name)) {
+		want = &ast.Chain{Statements: []ast.Statement{st, {Expr: ast.Operand(0)}}}
+		text += "return 1\n"
+	} else {
+		return ""
+	}
+	got, err := parse.String(text)
+	if err != nil || !reflect.DeepEqual(got, want) {
+		return fmt.Sprintf("text %q printed for a bare statement does not parse back to it", s)
+	}
+	return ""
+}
+
+// k1Shape: a dbl-class identifier where a shift-expression starts (known finding K1).
+func k1Shape(e ast.Expr) bool {
+	var rec func(e ast.Expr, start bool) bool
+	rec = func(e ast.Expr, start bool) bool {
+		switch x := e.(type) {
+		case ast.Identifier:
+			return start && IsDblClass(string(x))
+		case ast.Add:
+			return rec(x.X, true) || rec(x.Y, true)
+		case ast.Shift:
+			return rec(x.X, false)
+		case ast.Double:
+			return rec(x.X, false)
+		}
+		return false
+	}
+	return rec(e, true)
 }
